@@ -193,12 +193,17 @@ def rand_value(rng):
 
 def gen_sequence(rng, n):
     ops = []; nstates = 1
+    pairs = []
     for _ in range(n):
         r = rng.random()
         i = rng.randrange(nstates) if rng.random() < 0.3 else nstates - 1
         if r < 0.45:
             k = rng.choice(KEYS) if rng.random() < 0.8 else rand_printable(rng, 1, 6)
             v = rand_value(rng)
+            if pairs and rng.random() < 0.2:
+                k, v = rng.choice(pairs)        # re-state an entry that is there already, with exactly this value
+            elif rng.random() < 0.5:
+                pairs.append((k, v))
             if rng.random() < 0.06:
                 k = rng.choice([b'', b'\x00', b'k\x7f', b'\xc3\xa9', b'a\nb', b'k\x00x'])
             if rng.random() < 0.05:
